@@ -93,6 +93,7 @@ def run(cx):
         pname = lit.ev(k, m)
         src_node = m.consts.get(v.id) if isinstance(v, ast.Name) else v
         listed = _listed_ids(src_node, m)
+        r.check(set(listed) == set(plats[pname]), f"platform[{pname}]/registered=listed", (m.rel, src_node.lineno), f"the table lists {len(set(listed))} ids but {len(plats[pname])} are registered; listed and not registered: {sorted(set(listed) - set(plats[pname]))[:6]}, registered and not listed: {sorted(set(plats[pname]) - set(listed))[:6]}")
         seen = set()
         for b in listed:
             r.check(b not in seen, f"board[{b}]/listed-once-in[{pname}]", (m.rel, src_node.lineno), f"board id {b!r} listed twice for platform {pname}", sample=f"{pname}:{b}")
@@ -370,6 +371,15 @@ def _listed_ids(node, m):
         return [lit.ev(e, m) for e in node.elts]
     if isinstance(v, (list, tuple, set, frozenset)):
         return list(v)
+    # a table built from a text block by a helper of the module (`_table("""a b  # note ...""")`): the entries as *listed* are the
+    # blank-separated words of the text outside `#` comments (a separating comma is not part of an id)
+    if isinstance(node, ast.Call) and isinstance(node.func, ast.Name) and node.func.id in m.funcs and len(node.args) == 1 and not node.keywords:
+        text = lit.try_ev(node.args[0], m)
+        if isinstance(text, str):
+            out = []
+            for line in text.splitlines():
+                out.extend(w.strip(",") for w in line.partition("#")[0].split() if w.strip(","))
+            return out
     raise AnalysisError("board table is not a literal collection")
 
 
